@@ -21,6 +21,7 @@ Operation recorder interface and implementations.
 """
 
 from collections import namedtuple, OrderedDict
+from collections.abc import Set, MappingView
 from datetime import datetime, timedelta
 import logging
 
@@ -846,6 +847,8 @@ class TestClientRecorder(BaseOperationRecorder):
         """
         super().__init__()
         self._fp = fp
+        # True only while record() converts the staged arguments and result
+        self._recording = False
 
     def copy(self):
         """
@@ -884,14 +887,16 @@ class TestClientRecorder(BaseOperationRecorder):
         tc_operation = OrderedDict()
         tc_operation['pywbem_method'] = pywbem_args.method
         for arg_name in pywbem_args.args:
-            tc_operation[arg_name] = self.toyaml(pywbem_args.args[arg_name])
+            tc_operation[arg_name] = self._toyaml_for_record(
+                pywbem_args.args[arg_name])
         tc_pywbem_request['operation'] = tc_operation
         testcase['pywbem_request'] = tc_pywbem_request
 
         tc_pywbem_response = OrderedDict()
         if pywbem_result.ret is not None:
             yaml_txt = 'pullresult' if self._pull_op else 'result'
-            tc_pywbem_response[yaml_txt] = self.toyaml(pywbem_result.ret)
+            tc_pywbem_response[yaml_txt] = self._toyaml_for_record(
+                pywbem_result.ret)
 
         if pywbem_result.exc is not None:
             exc = pywbem_result.exc
@@ -960,6 +965,23 @@ class TestClientRecorder(BaseOperationRecorder):
         data = data.replace('\n\n', '\n')  # YAML dump duplicates newlines
         self._fp.write(data)
         self._fp.flush()
+
+    def _toyaml_for_record(self, obj):
+        """
+        toyaml() as used by record(): Recording must never change the outcome
+        of the recorded operation, so values of types that toyaml() rejects
+        with TypeError are recorded as well as possible instead:
+        A plain float (e.g. an untyped real-valued key binding returned by a
+        server) as that float, iterables other than list/tuple (e.g. a
+        dictionary view passed as 'Params') as a list, and any other object
+        (an invalid argument the operation itself rejects) as the name of its
+        type.
+        """
+        self._recording = True
+        try:
+            return self.toyaml(obj)
+        finally:
+            self._recording = False
 
     def toyaml(self, obj):
         """
@@ -1108,6 +1130,14 @@ class TestClientRecorder(BaseOperationRecorder):
             ret_dict['overridable'] = self.toyaml(obj.overridable)
             ret_dict['translatable'] = self.toyaml(obj.translatable)
             return ret_dict
+
+        if self._recording:
+            if isinstance(obj, float):
+                return obj
+            if isinstance(obj, (Set, MappingView)):
+                return [self.toyaml(item) for item in obj]
+            # Iterators are not iterated: That would consume them
+            return _format("{0}", type(obj))
 
         raise TypeError(
             _format("Invalid type in TestClientRecorder.toyaml(): {0} {1}",
